@@ -31,7 +31,16 @@ def c13(tier):
                     if r['cfg'].startswith('slice'):
                         runs += 1
                         nsl += sum(o.get('nslices', 0) for o in r['obs'])
-        return {'sliced_runs': runs, 'slices_executed': nsl, 'constant_budgets': '1..64', 'random_budget_range': '1..10000'}
+        return {'sliced_register_traces': mcov, 'sliced_runs': runs, 'slices_executed': nsl, 'constant_budgets': '1..64', 'random_budget_range': '1..10000'}
+
+    import mach, vlib
+    mcov = {}
+
+    def machine_check(verdict, sessions, wd):
+        # the register trace of a sliced run must be the trace of the model, which has no slices: a slice boundary
+        # that loses or alters machine state shows at the first instruction after it (spec/Machine.tla)
+        mcov.update(mach.run(verdict, wd, [('cont', 12 if q else 500, ['budget=1']), ('cont', 12 if q else 500, ['budget=37']),
+                                           ('lang', 12 if q else 500, ['budget=5'])], vlib.seed()))
 
     return props.cek_property(
         'C13', tier, plan, relevant,
@@ -39,4 +48,4 @@ def c13(tier):
         '1..64 (each) and seeded random budget sequences in 1..10^4; per slice the number of instructions executed is '
         'recorded (hook counter): a slice with work left that executes nothing is a violation; value, failure, '
         'output and global effects (later forms) are compared with the single CEK behaviour',
-        extra_cov=extra)
+        extra_cov=extra, extra_check=machine_check)
